@@ -46,7 +46,7 @@ Proof.
   - intros a p1 _. apply sat_container_epilogue; [sat_arith|exact I].
 Qed.
 
-(** ** meta: three loops over the same bytes, no final seek *)
+(** ** meta: three loops over the same bytes *)
 Lemma meta_find_hdlr_sat d m size f name s a p :
   bytes_ok d = true -> lenN d < 2 ^ 62 -> size < 2 ^ 62 ->
   8 <= p -> p <= lenN d -> s <= size ->
@@ -104,10 +104,10 @@ Proof.
       destruct (hdlr_handler_type h =? meta_MDIR).
       * apply sat_children_loop_bind with (IA := fun _ => True); [exact Hd| |exact I|].
         -- intros f name s a q _ H8q Hq Hle _. now apply meta_mdir_dispatch_sat with (size := size).
-        -- intros il p3 _. now apply sat_ret.
+        -- intros il p3 _. apply sat_container_epilogue; [sat_arith|exact I].
       * apply sat_children_loop_bind with (IA := fun _ => True); [exact Hd| |exact I|].
         -- intros f name s a q _ H8q Hq Hle _. now apply meta_unknown_dispatch_sat with (size := size).
-        -- intros il p3 _. now apply sat_ret.
+        -- intros il p3 _. apply sat_container_epilogue; [sat_arith|exact I].
 Qed.
 
 (** ** udta *)
